@@ -8,15 +8,16 @@ V: CrossSdkTrace (TLC: pairwise agreement with the Python SDK per clause and tar
 """
 from __future__ import annotations
 
+import concurrent.futures
 import json
 import os
 import re
+import threading
 from typing import Any, Dict, List
 
 from harness import core
 from harness import cross_lib as cl
 
-CHUNK = 1500
 
 
 def _errs(o: Dict[str, Any]) -> set:
@@ -42,16 +43,18 @@ def main() -> int:
     ck = core.Check("C09", "exploration")
     models_by_name: Dict[str, Any] = {}
 
-    # ---- M: design-level checks of the reference semantics ---------------------------------------
     replay = os.environ.get("VERIF_REPLAY")
-    if not replay:
-        ck.model_check("MC_CrossSdk", "MC_CrossSdk.cfg", "reference (de)serialiser round-trips; mutation verdicts coherent; base64; constant sets", env={"VERIF_TIER": ck.tier}, workers=4, timeout=600)
-
+    reuse = os.environ.get("VERIF_C09_REUSE")  # development only: directory with cases.json and obs.json of an earlier run
     # ---- G ------------------------------------------------------------------------------------------
     cases_p = ck.work / "cases.json"
-    g = ck.tlc("CrossSdkGen", what="G: instances, mutated documents, enumeration probes", env={"VERIF_OUT": str(cases_p), "VERIF_TIER": ck.tier}, count=False, timeout=900)
+    if reuse:
+        import shutil
+
+        shutil.copy(os.path.join(reuse, "cases.json"), cases_p)
+    else:
+        ck.tlc("CrossSdkGen", what="G: instances, mutated documents, enumeration probes", env={"VERIF_OUT": str(cases_p), "VERIF_TIER": ck.tier}, count=False, timeout=900)
     G = core.read_json(cases_p)
-    if replay:
+    if replay and not reuse:
         rp = core.read_json(__import__("pathlib").Path(replay))
         G = _reduce_for_replay(G, rp.get("case", {}))
         core.write_json(cases_p, G)
@@ -60,9 +63,44 @@ def main() -> int:
     fam_root = {f["name"]: f["root"] for f in G["families"]}
     fam_model = {f["name"]: f["model"] for f in G["families"]}
 
+    models_p = ck.work / "models.json"
+    core.write_json(models_p, {"models": G["models"]})
+
+    # ---- M (design-level checks of the reference semantics, on the cases G wrote) runs beside R ----------------
+    m_box: Dict[str, Any] = {}
+
+    def run_m() -> None:
+        try:
+            m_box["res"] = core.run_tlc("MC_CrossSdk", "MC_CrossSdk.cfg", workdir=ck.work / "m", env={"VERIF_CASES": str(cases_p), "VERIF_TIER": ck.tier}, workers=2, timeout=2400, jvm=("-Xmx3g", "-XX:ParallelGCThreads=2"))
+        except Exception as ex:  # reported below
+            m_box["exc"] = ex
+
+    m_thread = threading.Thread(target=run_m)
+    if reuse:
+        replay = replay or "reuse"
+    if not replay:
+        m_thread.start()
+
     # ---- R ------------------------------------------------------------------------------------------
     obs_p = ck.work / "obs.json"
-    ck.impl("harness.run_c09", [str(cases_p), str(obs_p), str(ck.work / "build"), "8"], timeout=3000)
+    try:
+        if reuse:
+            shutil.copy(os.path.join(reuse, "obs.json"), obs_p)
+        else:
+            ck.impl("harness.run_c09", [str(cases_p), str(obs_p), str(ck.work / "build"), "8"], timeout=3000)
+    finally:
+        if not replay:
+            m_thread.join()
+    if not replay:
+        if "exc" in m_box:
+            raise core.MachineryFailure("M: %s" % m_box["exc"])
+        mres = m_box["res"]
+        ck.cov["states"] += mres.distinct
+        ck.cov["transitions"] += mres.generated
+        ck.cov["tlc_runs"].append({"what": "M: reference (de)serialiser round-trips; wire shape; errors anchored; mutation verdicts coherent; base64, integer order, pattern facts", "cmd": mres.cmd.replace(str(core.VERIF) + "/", ""), "generated": mres.generated, "distinct": mres.distinct, "wall_s": round(mres.wall, 2), "violations": len(mres.violations)})
+        core.tlc_must_pass(mres, "M: MC_CrossSdk")
+        if mres.violations or mres.distinct == 0:
+            raise core.MachineryFailure("design-level model check MC_CrossSdk violated or empty: %s" % (mres.violations[:1],))
     obs = core.read_json(obs_p)
     recs: List[Dict[str, Any]] = obs["records"]
     ck.notes.append("R timings: %s" % json.dumps(obs["timings"]))
@@ -79,18 +117,34 @@ def main() -> int:
     counts = [0, 0, 0, 0, 0, 0]
     ref_doubts: List[str] = []
     n_pair = 0
-    for off in range(0, len(recs), CHUNK):
-        part = recs[off : off + CHUNK]
-        pp = ck.work / "obs_part.json"
-        core.write_json(pp, part)
-        res = ck.tlc("CrossSdkTrace", what="V: pairwise agreement with the Python SDK; Python SDK vs reference", env={"VERIF_OBS": str(pp)}, cont=True, workers=4, timeout=1500)
+    n_chunks = max(1, min(4, (len(recs) + 399) // 400))
+    size = (len(recs) + n_chunks - 1) // n_chunks
+    parts = [recs[off : off + size] for off in range(0, len(recs), size)]
+
+    def run_v(q: int) -> core.TlcResult:
+        pp = ck.work / ("obs_part_%d.json" % q)
+        core.write_json(pp, parts[q])
+        return core.run_tlc("CrossSdkTrace", None, workdir=ck.work / ("v%d" % q), env={"VERIF_OBS": str(pp), "VERIF_CASES": str(models_p)}, cont=True, workers=1, timeout=2400, jvm=("-Xmx3g", "-XX:ParallelGCThreads=2"))
+
+    with concurrent.futures.ThreadPoolExecutor(max_workers=4) as ex:
+        v_results = list(ex.map(run_v, range(len(parts))))
+    for part, res in zip(parts, v_results):
+        ck.cov["states"] += res.distinct
+        ck.cov["transitions"] += res.generated
+        ck.cov["tlc_runs"].append({"what": "V: pairwise agreement with the Python SDK; Python SDK vs reference", "cmd": res.cmd.replace(str(core.VERIF) + "/", ""), "generated": res.generated, "distinct": res.distinct, "wall_s": round(res.wall, 2), "violations": len(res.violations)})
+        core.tlc_must_pass(res, "V: CrossSdkTrace")
+        if res.distinct != len(part):
+            raise core.MachineryFailure("V consumed %d of %d records" % (res.distinct, len(part)))
         for line in res.printed:
             m = re.search(r"counts\", (\d+), (\d+), (\d+), (\d+), (\d+), (\d+)", line)
             if m:
                 for q in range(6):
                     counts[q] += int(m.group(q + 1))
         for v in res.violations:
-            i = int(res.var_of(v, "i") or "0")
+            mi = re.search(r"\bi = (\d+)", v["state"])
+            if not mi:
+                raise core.MachineryFailure("cannot read the record index of a violation: %r" % v["state"][:200])
+            i = int(mi.group(1))
             r = part[i - 1]
             inv = v["invariant"]
             if inv.startswith("Inv_Ref_"):
@@ -107,7 +161,7 @@ def main() -> int:
                 a, b = r[target], r["py"]
                 if inv.startswith("Inv_Verify"):
                     if a["built"] != b["built"] or a["verified"] != b["verified"]:
-                        ck.violation({"clause": inv, "target": target, "what": "exception", "operand_feats": ",".join(r["feats"])}, inv, case, {target: a, "py": b}, detail="%s: %s / python: %s" % (target, a["exc"], b["exc"]))
+                        ck.violation({"clause": inv, "target": target, "what": "exception"}, inv, case, {target: a, "py": b}, detail="%s: %s / python: %s" % (target, a["exc"], b["exc"]))
                     else:
                         ea, eb = _errs(a), _errs(b)
                         for path, cause in sorted(ea ^ eb):
@@ -122,7 +176,7 @@ def main() -> int:
                             )
                 else:  # Inv_Json_cpp
                     if a["serialized"] != b["serialized"]:
-                        ck.violation({"clause": inv, "target": target, "what": "serialize_failed_in_" + (target if not a["serialized"] else "py"), "feats": ",".join(r["feats"])}, inv, case, {target: a["exc"], "py": b["exc"]}, detail="%s: %s / python: %s" % (target, a["exc"][:200], b["exc"][:200]))
+                        ck.violation({"clause": inv, "target": target, "what": "serialize_failed_in_" + (target if not a["serialized"] else "py"), "int64_extreme": "int64_extreme" in r["feats"]}, inv, case, {target: a["exc"], "py": b["exc"]}, detail="%s: %s / python: %s" % (target, a["exc"][:200], b["exc"][:200]))
                     else:
                         ja, jb = cl.unproject_json(a["json"]), cl.unproject_json(b["json"])
                         keys = sorted(k for k in set(ja) | set(jb) if ja.get(k, "<absent>") != jb.get(k, "<absent>")) if isinstance(ja, dict) and isinstance(jb, dict) else ["<root>"]
@@ -169,6 +223,11 @@ def main() -> int:
     )
     ck.cov["exhaustive"] = False
     ck.cov["pairwise_disagreements"] = n_pair
+    kc: Dict[str, int] = {}
+    for v in ck.violations:
+        ks = json.dumps(v["key"], sort_keys=True)
+        kc[ks] = kc.get(ks, 0) + 1
+    ck.cov["disagreement_keys"] = [{"key": json.loads(k), "cases": n} for k, n in sorted(kc.items())][:80]
     ck.cov["targets_observed"] = {"%s/%s" % k: v["status"] for k, v in builds.items()}
     insts = [r for r in recs if r["kind"] == "inst"]
     docs = [r for r in recs if r["kind"] == "doc"]
